@@ -108,6 +108,14 @@ M = [
     ("c04_copy_borrows_sub", "Lib/core/ps.c", "        m->sub = m_mem_ref(sub); //", "        m->sub = sub; //", "C04", "C04.2-REFPTR-STORE"),
     ("c20_ctx_src_not_removed", "Lib/core/src.c", "        poll_set_new_evt(&c->ppriv, *src, RM);\n        m_mem_unrefp((void **)src);", "        m_mem_unrefp((void **)src);", "C20", "C20.4-RELEASE"),
     ("c19_dereg_skips_stop", "Lib/core/mod.c", "            /* Stop module */\n            stop(m, true);", "            if (m_mod_is(m, M_MOD_RUNNING | M_MOD_PAUSED)) {\n                stop(m, true);\n            }", "C19", "C19.2-ONE-PER-TRANSITION"),
+    ("c02_copy_rewrites_topic", "Lib/core/ps.c", "        m->sub = m_mem_ref(sub); //", "        if (sub) m->msg.topic = sub->ps_src.topic;\n        m->sub = m_mem_ref(sub); //", "C02", "C02.3-COPY"),
+    ("c03_poll_wait_retries", "Lib/core/poll/epoll.c", "    return epoll_wait(ep->fd, (struct epoll_event *) ep->pevents, priv->max_events, timeout);", "    int r;\n    do {\n        r = epoll_wait(ep->fd, (struct epoll_event *) ep->pevents, priv->max_events, timeout);\n    } while (r == -1 && errno == EINTR);\n    return r;", "C03", "C03.1-ERRNO"),
+    ("c03_sigmask_unblock", "Lib/core/poll/cmn_linux.c", "    sigprocmask(SIG_BLOCK, &mask, NULL);", "    sigprocmask(SIG_BLOCK, &mask, NULL);\n    if (tmp->flags & M_SRC_ONESHOT) sigprocmask(SIG_UNBLOCK, &mask, NULL);", "C03", "C03.6-SIGMASK"),
+    ("c04_cb_fastpath_leaks_queue", "Lib/core/ps.c", "    if (m_queue_len(evts) == 0) {\n        goto end;\n    }", "    if (!m_mod_is(mod, M_MOD_RUNNING)) {\n        return;\n    }\n    if (m_queue_len(evts) == 0) {\n        goto end;\n    }", "C04", "C04.3-OWN"),
+    ("c04_bind_borrows", "Lib/core/mod.c", "    return m_list_insert(ref->bound_mods, m_mem_ref(mod));", "    return m_list_insert(ref->bound_mods, mod);", "C04", "C04.2-REFPTR-STORE"),
+    ("c09_manage_srcs_early_return", "Lib/core/mod.c", "    int ret = 0;\n\n    for (int i = 0; i < M_SRC_TYPE_END; i++) {\n        m_itr_foreach(mod->srcs[i], {", "    int ret = 0;\n\n    if (flag == RM && m_mod_is(mod, M_MOD_PAUSED)) {\n        return 0;\n    }\n    for (int i = 0; i < M_SRC_TYPE_END; i++) {\n        m_itr_foreach(mod->srcs[i], {", "C09", "C09.5-STOP-DROPS"),
+    ("c09_wrapper_masks_flags", "Lib/core/src.c", "    return register_mod_src(mod, M_SRC_TYPE_PATH, pt, flags, userptr);", "    return register_mod_src(mod, M_SRC_TYPE_PATH, pt, flags & ~0x3f, userptr);", "C09", "C09.9-PASS-THROUGH"),
+    ("c06_started_after_workers", "Lib/thpool/thpool.c", "        pool->init_state |= INITED_STARTED;\n        if (!(flags & M_THPOOL_LAZY)) {\n            /* Start worker threads */\n            err = add_threads(pool, thread_count);\n        }", "        if (!(flags & M_THPOOL_LAZY)) {\n            /* Start worker threads */\n            err = add_threads(pool, thread_count);\n        }\n        pool->init_state |= INITED_STARTED;", "C06", "C06.5-JOIN-BEFORE-FREE"),
     # ---- C19
     ("c19_started_on_refuse", "Lib/core/mod.c", "        if (m_mod_is(mod, M_MOD_RUNNING | M_MOD_PAUSED)) {\n            stop(mod, true);\n        }\n        ret = 0;",
      "        tell_system_pubsub_msg(NULL, c, mod, M_PS_MOD_STARTED);\n        if (m_mod_is(mod, M_MOD_RUNNING | M_MOD_PAUSED)) {\n            stop(mod, true);\n        }\n        ret = 0;", "C19", "C19.2-ONE-PER-TRANSITION"),
